@@ -38,7 +38,7 @@ func (w *WaterMark) Init(closer *Closer) {
 	const defaultCap = 128
 	w.waiters = make(map[uint64]chan struct{}, defaultCap)
 	w.window.Store(&watermarkWindow{
-		base:  1,
+		base:  0,
 		slots: make([]atomic.Int32, defaultWatermarkWindow),
 	})
 	// Legacy closers expected each watermark processor to call Done once.
@@ -134,9 +134,6 @@ func (w *WaterMark) WaitForMark(ctx context.Context, index uint64) error {
 }
 
 func (w *WaterMark) addIndex(index uint64, delta int32) {
-	if index == 0 {
-		return
-	}
 	win := w.ensureWindow(index)
 	offset := index - win.base
 	if offset < uint64(len(win.slots)) {
@@ -172,6 +169,12 @@ func (w *WaterMark) tryAdvance() {
 		}
 		offset := next - win.base
 		if win.slots[offset].Load() > 0 {
+			return
+		}
+		// An index that is begun again while it is the watermark itself (a reader that starts
+		// at the timestamp every earlier reader has finished with, or at 0 on a fresh store) is
+		// pending at doneUntil, not above it: the watermark must not move past it either.
+		if doneUntil >= win.base && win.slots[doneUntil-win.base].Load() > 0 {
 			return
 		}
 		if atomic.CompareAndSwapUint64(&w.doneUntil, doneUntil, next) {
@@ -215,7 +218,8 @@ func (w *WaterMark) ensureWindow(index uint64) *watermarkWindow {
 // rebuildWindowLocked resizes the window; caller must hold w.mu.
 func (w *WaterMark) rebuildWindowLocked(index uint64, win *watermarkWindow) {
 	done := w.DoneUntil()
-	newBase := done + 1
+	// The watermark's own slot stays in the window: an index can be pending at doneUntil.
+	newBase := done
 	if index < newBase {
 		index = newBase
 	}
@@ -252,7 +256,7 @@ func (w *WaterMark) rebuildWindowLocked(index uint64, win *watermarkWindow) {
 func (w *WaterMark) loadWindow() *watermarkWindow {
 	if w.window.Load() == nil {
 		win := &watermarkWindow{
-			base:  1,
+			base:  0,
 			slots: make([]atomic.Int32, defaultWatermarkWindow),
 		}
 		w.window.Store(win)
